@@ -73,14 +73,20 @@ impl<'a> ByteSched<'a> {
         self.i += 1;
         v
     }
-    /// how many more bytes arrive (1..=available), 0 schedule byte = all
-    fn arrive(&mut self, available: usize) -> usize {
+    /// how many more bytes arrive (1..=pending): schedule byte 0 = all; 1..=199 that many; 200..=219 up to the next CR;
+    /// 220..=239 up to and including the next CR (the arrival ends between CR and LF); 240..=255 up to and including the
+    /// next LF - line-structure-aware arrivals, which is where segmentation-sensitive index arithmetic lives
+    fn arrive(&mut self, pending: &[u8]) -> usize {
+        let available = pending.len();
         if available == 0 {
             return 0;
         }
         match self.next() {
             0 => available,
-            v => (v as usize).min(available),
+            v if v < 200 => (v as usize).min(available),
+            v if v < 220 => pending.iter().skip(1).position(|b| *b == b'\r').map(|p| p + 1).unwrap_or(available),
+            v if v < 240 => pending.iter().position(|b| *b == b'\r').map(|p| p + 1).unwrap_or(available),
+            _ => pending.iter().position(|b| *b == b'\n').map(|p| p + 1).unwrap_or(available),
         }
     }
     fn out(&mut self, ample: usize) -> usize {
@@ -175,7 +181,7 @@ pub fn chaos_run(cfg: &Cfg, sched: &[u8], server: &[u8]) -> Result<Info, String>
                 let mut tries = 0;
                 while a.can_keep_await_100() && tries < 64 {
                     tries += 1;
-                    let inc = s.arrive(server.len() - arrived);
+                    let inc = s.arrive(&server[arrived..]);
                     arrived += inc;
                     info.server_calls += 1;
                     match a.try_read_100(&server[consumed..arrived]) {
@@ -216,7 +222,7 @@ pub fn chaos_run(cfg: &Cfg, sched: &[u8], server: &[u8]) -> Result<Info, String>
         if steps > server.len() * 2 + 16 {
             break;
         }
-        let inc = s.arrive(server.len() - arrived);
+        let inc = s.arrive(&server[arrived..]);
         arrived += inc;
         info.server_calls += 1;
         match rr.try_response(&server[consumed..arrived]) {
@@ -273,7 +279,7 @@ pub fn chaos_run(cfg: &Cfg, sched: &[u8], server: &[u8]) -> Result<Info, String>
                 if steps > server.len() * 3 + 64 {
                     break;
                 }
-                let inc = s.arrive(server.len() - arrived);
+                let inc = s.arrive(&server[arrived..]);
                 arrived += inc;
                 let win = &server[consumed..arrived];
                 let osz = s.out(win.len() + 16).min(obuf.len());
